@@ -84,7 +84,19 @@ def run(ctx):
         recs = [("c%d" % k, s_) for k in range(copies)]
         t = gen.fit_type(t, kind, recs)
         cases.append(Case(recs, t, threads=rng.choice([1, 8]), api="file", fmt="fasta", tag="large group"))
+    # many identical copies of long sequences (the k-means splitter sees identical distance rows whose float mean differs from the rows by more than
+    # its tie tolerance only for lengths in a middle band): uninstrumented build, a crash or an abort counts like any other failure
+    longid = []
+    for j in range(3 if ctx.quick else 18):
+        kind = rng.choice(["protein", "dna"])
+        L = [1000, 1500, 700, 2000, 1200, 900][j % 6]
+        s_ = gen.rand_seq(rng, gen.AA if kind == "protein" else gen.DNA, L)
+        copies = rng.choice([128, 150, 200, 300])
+        recs = [("c%d" % k, s_) for k in range(copies)]
+        longid.append(Case(recs, gen.fit_type(5, kind, recs), threads=rng.choice([1, 4]), api="file", fmt="fasta", tag="many long identical copies"))
+    sysrun.run_cases(C.build_harness("plain"), longid, timeout=1800)
     sysrun.run_cases(kvh, cases, timeout=1800)
+    cases += longid
     fails = []
     for c in cases:
         ctx.evaluations += 1
